@@ -315,5 +315,39 @@ def shortestRoute (geo : Geo α) (pick : Pick α) (implementsWeighted : Bool) (o
         | .ok (ls, d, tm) => .ok ⟨ls, d, tm, geo.euclid from_ s.p, geo.euclid to t.p, s.id, t.id⟩
   | _, _ => .error .nilNode
 
+/-- one step of a history on ONE `Network` value -/
+inductive Op (α : Type) where
+  | link (l : Link α)
+  | query (a b : Pt α)
+
+/-- A history of `AddLink` and `ShortestRoute` calls on one network; the answers in order.
+`ShortestRoute` has a value receiver and "does not change the Network": the model is a pure
+function of the network built so far, so an answer CANNOT depend on earlier queries
+(`C19_history`).  Any such dependence in the real code (a cache that `AddLink` does not
+invalidate, say) shows up as a SPEC/DIFF verdict on a query asked again after further links. -/
+def runOps (geo : Geo α) (pick : Pick α) (implementsWeighted : Bool) (ord : Nat → List Nat → List Nat) :
+    Net α → Nat → List (Op α) → Except Fault (List (Except Fault (Route α)))
+  | _, _, [] => .ok []
+  | net, i, .link l :: r =>
+    match addLink geo net i l with
+    | .error e => .error e
+    | .ok net' => runOps geo pick implementsWeighted ord net' (i + 1) r
+  | net, i, .query a b :: r =>
+    match runOps geo pick implementsWeighted ord net i r with
+    | .error e => .error e
+    | .ok rs => .ok (shortestRoute geo pick implementsWeighted ord net a b :: rs)
+
+/-- the links of a history, in order -/
+def linksOf : List (Op α) → List (Link α)
+  | [] => []
+  | .link l :: r => l :: linksOf r
+  | .query _ _ :: r => linksOf r
+
+/-- the number of queries in a history -/
+def queriesIn : List (Op α) → Nat
+  | [] => 0
+  | .link _ :: r => queriesIn r
+  | .query _ _ :: r => queriesIn r + 1
+
 end route
 end GeomV.C19
